@@ -671,6 +671,37 @@ fn run_inner(sc: &J) -> Result<Option<String>, String> {
             }
             Ok(None)
         }
+        // C01/C02: big-decimal values with scales at and beyond the i32 range round-trip (compared as (unscaled, scale))
+        "bigdecimal_scales" => {
+            use std::str::FromStr;
+            let schema = Schema::parse_str("{\"type\":\"bytes\",\"logicalType\":\"big-decimal\"}").map_err(|e| e.to_string())?;
+            for text in ["0", "-1.5", "12345e-2", "12345e-2147483647", "12345e-2147483648", "12345e-4294967298", "-7e2147483649", "99999999999999999999999999999e-9000000000"] {
+                let d = apache_avro::BigDecimal::from_str(text).map_err(|e| format!("{text}: {e}"))?;
+                let bytes = apache_avro::to_avro_datum(&schema, Value::BigDecimal(d.clone())).map_err(|e| e.to_string())?;
+                match apache_avro::from_avro_datum(&schema, &mut &bytes[..], None) {
+                    Ok(Value::BigDecimal(back)) => if back.as_bigint_and_exponent() != d.as_bigint_and_exponent() { return Ok(Some(format!("big-decimal {text}: (unscaled, scale) {:?} reads back as {:?}", d.as_bigint_and_exponent(), back.as_bigint_and_exponent()))); },
+                    other => return Ok(Some(format!("big-decimal {text} reads back as {other:?}"))),
+                }
+            }
+            Ok(None)
+        }
+        // C05: (fresh process, limit set to `limit`) a collection split over several blocks, each block within the limit but the
+        // sum beyond it, must be rejected; a collection within the limit must be accepted
+        "limit_multiblock" => {
+            let limit = sc["limit"].as_u64().unwrap_or(4096) as usize;
+            let _ = apache_avro::util::max_allocation_bytes(limit);
+            let schema = Schema::parse_str("{\"type\":\"array\",\"items\":\"null\"}").map_err(|e| e.to_string())?;
+            let per_block = (limit / std::mem::size_of::<Value>()).max(2) - 1;
+            let mut bytes = Vec::new();
+            for _ in 0..8 { hk::zig_i64(per_block as i64, &mut bytes).unwrap(); }
+            bytes.push(0);
+            if let Ok(Value::Array(items)) = apache_avro::from_avro_datum(&schema, &mut &bytes[..], None) {
+                return Ok(Some(format!("limit {limit}: {} input bytes decode to an array of {} values = {} bytes of Value", bytes.len(), items.len(), items.len() * std::mem::size_of::<Value>())));
+            }
+            let mut small = Vec::new(); hk::zig_i64(per_block as i64, &mut small).unwrap(); small.push(0);
+            if apache_avro::from_avro_datum(&schema, &mut &small[..], None).is_err() { return Ok(Some(format!("limit {limit}: a single block of {per_block} nulls (within the limit) is rejected"))); }
+            Ok(None)
+        }
         k => Err(format!("unknown scenario kind {k:?}")),
     }
 }
